@@ -751,9 +751,12 @@ class Mals(Contract):
             # dirty core: i (its leading rank may be stale after the previous two-site step), except at the start
             sol, op, rhs = V['solution'], V.old('operator'), V.old('right_hand_side')
             d = zi(op.order)
+            # (the last forward iteration, i = order - 2, only builds the left stacks: the stale core stays order - 2)
+            nupd = z3.If(i <= d - 2, i, d - 2)          # two-site steps done so far (at 0 .. nupd - 1); the core after the last one is stale
+            stale = lambda j: z3.And(nupd >= 1, j == nupd)  # noqa
             yield from me.common(V)
-            yield 'cores', FA(0, d, lambda j: z3.Implies(z3.Or(j != i, i == 0), sol_core_ok(sol, j)))
-            yield 'buffers-fresh', fresh_ok(V, sol, d, lambda j: z3.Or(j != i, i == 0))
+            yield 'cores', FA(0, d, lambda j: z3.Implies(z3.Not(stale(j)), sol_core_ok(sol, j)))
+            yield 'buffers-fresh', fresh_ok(V, sol, d, lambda j: z3.Not(stale(j)))
             yield 'left-stacks', FA(0, d, lambda j: z3.Implies(j < i, z3.And(Lop(V['stack_left_op'], op, sol, j), Lrhs(V['stack_left_rhs'], rhs, sol, j))))
             yield 'right-stacks', FA(0, d, lambda j: z3.Implies(z3.And(j >= 1, j > i), z3.And(Rop(V['stack_right_op'], op, sol, j), Rrhs(V['stack_right_rhs'], rhs, sol, j))))
 
@@ -761,7 +764,7 @@ class Mals(Contract):
             # after the step at i+1 slot i+1 holds the raw micro solution; before the first step core d-2 (or d-1) may be stale
             sol, op, rhs = V['solution'], V.old('operator'), V.old('right_hand_side')
             d = zi(op.order)
-            bad = lambda j: z3.If(i == d - 2, z3.And(j == d - 2, d > 2), j == i + 1)  # noqa
+            bad = lambda j: z3.If(i == d - 2, z3.And(j == d - 2, d > 2), z3.And(j == i + 1, i >= 0))  # noqa  (the step at i == 0 also finishes core 0)
             yield from me.common(V)
             yield 'cores', FA(0, d, lambda j: z3.Implies(z3.Not(bad(j)), sol_core_ok(sol, j)))
             yield 'buffers-fresh', fresh_ok(V, sol, d, lambda j: z3.Not(bad(j)))
